@@ -607,6 +607,36 @@ def r10(led, rid, ctx):
     led.floor(rid, "builders and negations", n, 13)
 
 
+def r11(led, rid, ctx):
+    """the initialisation context hands the reified wrapper a local id above every id its wrapped
+    propagator registered: next_local_id only grows (max of the old value and id + 1)"""
+    lib = ctx.lib
+    f = lib.method("PropagatorInitialisationContext", "register")
+    R = resolver(f)
+    n = 0
+    for b in f.blocks:
+        for st in b["stmts"]:
+            if st["s"] != "assign" or not st["dst"]["proj"]:
+                continue
+            names = [x.get("name") for x in st["dst"]["proj"] if "field" in x]
+            if names[-1:] != ["next_local_id"]:
+                continue
+            n += 1
+            e = R.rvalue(st["rv"])
+            mono = any(x.k == "call" and x.a.name == "max" and any("next_local_id" in y.fields() for y in x.b)
+                       for x in e.walk())
+            led.check(mono, rid, "register:next_local_id-monotone", "%s:%d" % (f.file, st["line"]),
+                      "max(self.next_local_id, id + 1)",
+                      "PropagatorInitialisationContext::register sets next_local_id to %s without taking the "
+                      "maximum with its old value: a propagator that registers its variables in non-increasing "
+                      "id order (element: array first, then index and rhs) leaves it too small, and the reified "
+                      "wrapper's literal collides with a wrapped variable" % show(e)[:80])
+    for c in f.calls:
+        if c.dst and c.name == "max" and False:
+            pass
+    led.floor(rid, "writes of next_local_id", n, 1)
+
+
 def run(ctx, led):
     run_rule(led, "R1", "the wrapped propagator runs only under r true, on a reified context, and its "
              "conflict gets [r = true]", r1, ctx)
@@ -624,3 +654,4 @@ def run(ctx, led):
     from . import predrules
     run_rule(led, "R9", "Predicate negation is the exact complement (shared with C02-U9)", predrules.negation_exact, ctx)
     run_rule(led, "R10", "LINFORM: arithmetic constraint builders and their negations mean what they say (abstract evaluation in the linear-form domain, 5-value window)", r10, ctx)
+    run_rule(led, "R11", "the reified wrapper's literal id lies above every id of the wrapped propagator (monotone next_local_id)", r11, ctx)
